@@ -3,7 +3,7 @@
    explicitly stated fixed-output-length premises of C08_binding_64 / C08_binding_any_width. *)
 From Coq Require Import NArith ZArith List Bool.
 From Coq.Strings Require Import Byte.
-From LV Require Import Lib.Bytes Model.C08 Proofs.C08.
+From LV Require Import Lib.Bytes Lib.Decimal Model.C08 Model.C08_Claim Proofs.C08.
 Import ListNotations.
 
 (* Every genuine proof is accepted: for ALL leaf lists and ALL indices, folding the generated branch
@@ -201,6 +201,37 @@ Theorem C08_height_mutation : forall (dsha : bytes -> bytes) headers st raw h h'
 Proof. exact height_mutation. Qed.
 Print Assumptions C08_height_mutation.
 
+(* End-to-end soundness: if the header at height h carries the root of the block made of raws and a
+   not yet verified transaction comes out verified, then the dict in use carried a decodable branch and
+   a position such that, whenever the position's low bits name index j of the block and the branch has
+   the shape of the block's own branch for j, the transaction's hash IS the hash of the block's j-th
+   transaction -- or [collision] exhibits a collision. *)
+Theorem C08_verified_tx_in_block : forall (dsha : bytes -> bytes) headers st raw h arg net raws r,
+  t_verified st = false ->
+  t_verified (mv_state (maybe_verify dsha headers st raw h arg net)) = true ->
+  merkle_root dsha (map dsha raws) = Some r ->
+  header_root_raw (nth (Z.to_nat h) headers []) = r ->
+  exists brs pos br,
+    m_merkle (effective arg net) = Some brs /\ m_pos (effective arg net) = Some pos /\
+    decode_branches brs = Some br /\
+    forall j, (j < length raws)%nat ->
+      (pos mod 2 ^ Z.of_nat (length br) = Z.of_nat j)%Z ->
+      same_widths br (branch dsha (map dsha raws) j) ->
+      (dsha raw = dsha (nth j raws []) /\ br = branch dsha (map dsha raws) j) \/
+      exists x y, collision dsha br (branch dsha (map dsha raws) j) pos (Z.of_nat j) (dsha raw) (dsha (nth j raws []))
+                    = Some (x, y) /\ x <> y /\ dsha x = dsha y.
+Proof. exact verified_tx_in_block. Qed.
+Print Assumptions C08_verified_tx_in_block.
+
+(* Why a flipped position bit can stay accepted (the reading of "altering the position"): a block
+   with an odd number n >= 3 of transactions and the same block with its last transaction repeated
+   have the SAME Merkle root, so position n of the longer block is a genuine proof for the same header. *)
+Theorem C08_dup_last_same_root : forall (dsha : bytes -> bytes) (l : list bytes),
+  Nat.odd (length l) = true -> (3 <= length l)%nat ->
+  merkle_root dsha (l ++ [last l []]) = merkle_root dsha l.
+Proof. exact dup_last_same_root. Qed.
+Print Assumptions C08_dup_last_same_root.
+
 (* ---------- non-vacuity (each a closed computation: tuples compared component-wise) ---------- *)
 (* a 5-leaf tree (two odd levels), index 4: branch of 3 siblings, fold reaches the root *)
 Example C08_ex_genuine :
@@ -246,4 +277,16 @@ Example C08_ex_maybe_verify :
    ({| t_height := 3; t_position := (-1)%Z; t_verified := false |}, RetTx, false),
    ({| t_height := 0; t_position := (-1)%Z; t_verified := false |}, RetTx, false),
    ({| t_height := 2; t_position := 2; t_verified := false |}, RetTx, true)).
+Proof. vm_compute. reflexivity. Qed.
+
+(* ---------- legacy claim_proofs.verify_proof: CORRESPONDENCE ONLY, no theorem ----------
+   the model (Model/C08_Claim.v) is only run against the real function; this closed computation just
+   shows the model accepts a one-node proof of the empty name and rejects it for another name *)
+Example C08_ex_legacy_claim_model :
+  let th := leaf_n 7 in
+  let pf := {| p_nodes := [{| n_children := []; n_value_hash := None |}];
+               p_txhash := Some (wire th); p_nout := Some 1%Z; p_takeover := Some 5%Z |} in
+  let root := match outpoint_hash toy_hash th 1 5 with Some oh => toy_hash oh | None => [] end in
+  (verify_proof toy_hash pf (wire root) [], verify_proof toy_hash pf (wire root) [x61],
+   verify_proof toy_hash pf (wire (leaf_n 1)) []) = (CpTrue, CpInvalid, CpInvalid).
 Proof. vm_compute. reflexivity. Qed.
